@@ -1,4 +1,75 @@
-(* C07 — statements are being added; see DESIGN.md section 7. *)
-From XSG.Model Require Import Strings.
-Example C07_placeholder : True. Proof. exact I. Qed.
-Print Assumptions C07_placeholder.
+(* C07 — No panic, abort or hang: parsing and extending return Ok or Err for EVERY event stream
+   (balanced or not, with faults or not, of any length and nesting depth).
+   What the model can carry:
+   * termination: the recursion of build_struct consumes an event per call, so the fuel
+     S (length evs) given by into_struct_ev / extend_struct_ev is never exhausted;
+   * the only arithmetic panic site of the parser, `count += 1` on a u32, is unreachable while
+     the number of events stays below 2^32 - 2 (every increment consumes a Start/Empty event);
+   * the `while` loop of create_unused_name / compute_struct_names exits (pinned as
+     C07_render_loop_exits in Properties/C04.v, Proofs/IdentProofs.v).
+   Partial: panics or hangs inside quick_xml, std or convert_string, stack consumption per frame
+   and allocation failure are not expressible in the model; bin/check C07 covers them by execution
+   (hostile byte strings through every reader configuration under catch_unwind + watchdog).
+   Only statements; every proof is `exact <lemma of Proofs/ParserTotal.v>`. *)
+From XSG.Model Require Import Strings Necessity Element Parser.
+From XSG.Proofs Require Import ParserTotal.
+
+Theorem C07_fuel_enough : forall fuel evs root known,
+  (List.length evs < fuel)%nat -> build_struct fuel evs root known <> OutOfFuel.
+Proof. exact fuel_enough. Qed.
+
+Theorem C07_parse_total : forall evs, into_struct_ev evs <> OutOfFuel.
+Proof. exact parse_total. Qed.
+Theorem C07_extend_total : forall root evs, extend_struct_ev root evs <> OutOfFuel.
+Proof. exact extend_total. Qed.
+Theorem C07_run_total : forall docs, run_evs docs <> OutOfFuel.
+Proof. exact run_total. Qed.
+Theorem C07_run_ok_or_err : forall docs,
+  (exists e, run_evs docs = Ok e) \/ (exists x, run_evs docs = Err x).
+Proof. exact run_ok_or_err. Qed.
+
+(* the u32 occurrence counter *)
+Theorem C07_count_bound : forall fuel evs root known e rest,
+  build_struct fuel evs root known = Ok (e, rest) ->
+  max_count e <= N.max (max_count root) 1 + N.of_nat (List.length evs - List.length rest).
+Proof. exact count_bound. Qed.
+Theorem C07_parse_count_bound : forall evs e,
+  into_struct_ev evs = Ok e -> max_count e <= 1 + N.of_nat (List.length evs).
+Proof. exact parse_count_bound. Qed.
+Theorem C07_extend_count_bound : forall root evs e,
+  extend_struct_ev root evs = Ok e ->
+  max_count e <= N.max (max_count root) 1 + N.of_nat (List.length evs).
+Proof. exact extend_count_bound. Qed.
+Theorem C07_no_overflow : forall evs e,
+  N.of_nat (List.length evs) < u32_max - 1 -> into_struct_ev evs = Ok e -> max_count e < u32_max.
+Proof. exact no_overflow. Qed.
+Theorem C07_extend_no_overflow : forall root evs e,
+  N.max (max_count root) 1 + N.of_nat (List.length evs) < u32_max ->
+  extend_struct_ev root evs = Ok e -> max_count e < u32_max.
+Proof. exact extend_no_overflow. Qed.
+Theorem C07_run_no_overflow : forall docs e,
+  N.of_nat (total_events docs) < u32_max - 1 -> run_evs docs = Ok e -> max_count e < u32_max.
+Proof. exact run_no_overflow. Qed.
+
+(* non-vacuity *)
+Example C07_example_count :
+  exists e, into_struct_ev ex_doc = Ok e /\ max_count e = 2
+            /\ N.of_nat (List.length ex_doc) < u32_max - 1.
+Proof. exact ex_count_bound. Qed.
+Example C07_example_run :
+  exists e, run_evs [ex_doc; ex_doc; ex_doc] = Ok e /\ max_count e = 6.
+Proof. exact ex_run_count. Qed.
+
+Print Assumptions C07_fuel_enough.
+Print Assumptions C07_parse_total.
+Print Assumptions C07_extend_total.
+Print Assumptions C07_run_total.
+Print Assumptions C07_run_ok_or_err.
+Print Assumptions C07_count_bound.
+Print Assumptions C07_parse_count_bound.
+Print Assumptions C07_extend_count_bound.
+Print Assumptions C07_no_overflow.
+Print Assumptions C07_extend_no_overflow.
+Print Assumptions C07_run_no_overflow.
+Print Assumptions C07_example_count.
+Print Assumptions C07_example_run.
